@@ -283,21 +283,17 @@ theorem slotFeatures_spec {r : Rec} (c : InvCache r) (aid : Nat) (s : Section) :
         · simp only [this]; exact c.slot x hx
     · exact c.tuple
 
-theorem peekArea_spec {r : Rec} (c : InvCache r) (aid : Nat) :
-    CoreEq r (peekArea r aid) ∧ InvCache (peekArea r aid) ∧
-    (peekArea r aid).log = r.log ++ [[r.children aid, r.section aid .pre, r.section aid .cross, r.section aid .post]] := by
-  unfold Lookup.peekArea
+/-- regenerating a collection's cache: bookkeeping untouched, caches right, and the snapshot now stored for the
+    collection is the current contents of its three sections -/
+theorem peekRegen_spec {r : Rec} (c : InvCache r) (aid : Nat) :
+    CoreEq r (peekRegen r aid) ∧ InvCache (peekRegen r aid) ∧ (peekRegen r aid).log = r.log ∧
+    ((peekRegen r aid).tupleVal.find? fun x => x.1 == aid).map (·.2)
+      = some [r.section aid .pre, r.section aid .cross, r.section aid .post] := by
+  unfold Lookup.peekRegen
   by_cases hc : r.clean.contains aid = true
   · rw [if_pos hc]
     have hm : aid ∈ r.clean := by simpa using hc
-    have ht := c.tuple aid hm
-    refine ⟨by constructor <;> rfl, ⟨c.cds, c.slot, c.tuple⟩, ?_⟩
-    cases hf : r.tupleVal.find? (fun x => x.1 == aid) with
-    | none => rw [hf] at ht; simp at ht
-    | some v =>
-      rw [hf] at ht; simp at ht
-      show r.log ++ [r.children aid :: ((r.tupleVal.find? fun x => x.1 == aid).map (·.2)).getD [[], [], []]] = _
-      rw [hf]; simp [ht]
+    exact ⟨CoreEq.refl r, c, rfl, c.tuple aid hm⟩
   · rw [if_neg hc]
     obtain ⟨v1, c1, e1, k1, t1, l1⟩ := slotFeatures_spec c aid .pre
     obtain ⟨v2, c2, e2, k2, t2, l2⟩ := slotFeatures_spec c1 aid .cross
@@ -310,13 +306,12 @@ theorem peekArea_spec {r : Rec} (c : InvCache r) (aid : Nat) :
     generalize (slotFeatures rb aid .post).2 = post at v3 ⊢
     generalize (slotFeatures rb aid .post).1 = rc at *
     have e := (e1.trans e2).trans e3
-    have hsec : ∀ s, rc.section aid s = r.section aid s := fun s => by simp only [Rec.section, e.sections]
     have hsa : ∀ s, ra.section aid s = r.section aid s := fun s => by simp only [Rec.section, e1.sections]
     have hsb : ∀ s, rb.section aid s = r.section aid s := fun s => by simp only [Rec.section, (e1.trans e2).sections]
     have hv1 : pre = r.section aid .pre := v1
     have hv2 : cross = r.section aid .cross := by rw [v2, hsa]
     have hv3 : post = r.section aid .post := by rw [v3, hsb]
-    refine ⟨?_, ⟨c3.cds, ?_, ?_⟩, ?_⟩
+    refine ⟨?_, ⟨c3.cds, ?_, ?_⟩, ?_, ?_⟩
     · exact { len := e.len, genes := e.genes, byName := e.byName, byLoc := e.byLoc, regions := e.regions,
               protos := e.protos, cands := e.cands, subs := e.subs, members := e.members,
               sections := e.sections, defs := e.defs, regionOf := e.regionOf }
@@ -332,7 +327,37 @@ theorem peekArea_spec {r : Rec} (c : InvCache r) (aid : Nat) :
         · simp only [this]
           have := c3.tuple x hx
           simpa [Rec.section] using this
-    · simp only [List.find?_cons, beq_self_eq_true, Option.map_some, Option.getD_some, l3, l2, l1, hv1, hv2, hv3]
-      simp only [Rec.children, e.members]
+    · simp only [l3, l2, l1]
+    · simp only [List.find?_cons, beq_self_eq_true, Option.map_some, hv1, hv2, hv3]
+
+theorem peekArea_spec {r : Rec} (c : InvCache r) (aid : Nat) :
+    CoreEq r (peekArea r aid) ∧ InvCache (peekArea r aid) ∧
+    (peekArea r aid).log = r.log ++ [[r.children aid, r.section aid .pre, r.section aid .cross, r.section aid .post]] := by
+  obtain ⟨e, c1, l, t⟩ := peekRegen_spec c aid
+  unfold Lookup.peekArea
+  simp only []
+  generalize peekRegen r aid = r1 at e c1 l t ⊢
+  refine ⟨?_, ⟨c1.cds, c1.slot, c1.tuple⟩, ?_⟩
+  · exact { len := e.len, genes := e.genes, byName := e.byName, byLoc := e.byLoc, regions := e.regions,
+            protos := e.protos, cands := e.cands, subs := e.subs, members := e.members,
+            sections := e.sections, defs := e.defs, regionOf := e.regionOf }
+  · cases hf : r1.tupleVal.find? (fun x => x.1 == aid) with
+    | none => rw [hf] at t; simp at t
+    | some v =>
+      rw [hf] at t; simp at t
+      simp only [hf, Option.map_some, Option.getD_some, t, l, Rec.children, e.members]
+
+theorem indexOf_ok {r r' : Rec} {aid gid : Nat} (h : indexOf r aid gid = .ok r') :
+    ∃ i, indexIn gid ((peekRegen r aid).children aid) = some i ∧
+      r' = { peekRegen r aid with log := (peekRegen r aid).log ++ [[[i]]] } := by
+  unfold Lookup.indexOf at h
+  simp only [] at h
+  cases hf : indexIn gid ((peekRegen r aid).children aid) with
+  | none => rw [hf] at h; cases h
+  | some i =>
+    rw [hf] at h
+    simp only [pure, Except.pure] at h
+    injection h with h
+    exact ⟨i, rfl, h.symm⟩
 
 end ASV.Lookup
